@@ -483,6 +483,9 @@ struct MonteCarloPi {
     inmount: u32,
     mcount: u32,
     incirc: f64,
+    // Bytes of a group started in a previous call to update, and their number.
+    pending: [u8; MONTEN],
+    pending_len: usize,
 }
 
 const MONTEN: usize = 6;
@@ -494,25 +497,50 @@ impl MonteCarloPi {
             inmount: 0,
             mcount: 0,
             incirc: (256.0_f64.powi(MONTEN_HALF) - 1.0).powi(2),
+            pending: [0; MONTEN],
+            pending_len: 0,
+        }
+    }
+
+    fn add_group(&mut self, w: &[u8]) {
+        let mut mx = 0.0_f64;
+        let mut my = 0.0_f64;
+
+        for j in 0..(MONTEN / 2) {
+            mx = (mx * 256.0) + f64::from(w[j]);
+            my = (my * 256.0) + f64::from(w[j + MONTEN / 2]);
+        }
+
+        self.mcount += 1;
+        if (mx * mx + my * my) <= self.incirc {
+            self.inmount += 1;
         }
     }
 }
 
 impl MathDigest for MonteCarloPi {
-    fn update(&mut self, data: &[u8]) {
-        for w in data.chunks_exact(MONTEN) {
-            let mut mx = 0.0_f64;
-            let mut my = 0.0_f64;
-
-            for j in 0..(MONTEN / 2) {
-                mx = (mx * 256.0) + f64::from(w[j]);
-                my = (my * 256.0) + f64::from(w[j + MONTEN / 2]);
+    fn update(&mut self, mut data: &[u8]) {
+        // The data can come in several slices (one per memory region): a group of bytes
+        // can start in a slice and end in the next one.
+        if self.pending_len > 0 {
+            let n = std::cmp::min(MONTEN - self.pending_len, data.len());
+            self.pending[self.pending_len..(self.pending_len + n)].copy_from_slice(&data[..n]);
+            self.pending_len += n;
+            data = &data[n..];
+            if self.pending_len < MONTEN {
+                return;
             }
+            let w = self.pending;
+            self.add_group(&w);
+            self.pending_len = 0;
+        }
 
-            self.mcount += 1;
-            if (mx * mx + my * my) <= self.incirc {
-                self.inmount += 1;
-            }
+        let chunks = data.chunks_exact(MONTEN);
+        let rem = chunks.remainder();
+        self.pending[..rem.len()].copy_from_slice(rem);
+        self.pending_len = rem.len();
+        for w in chunks {
+            self.add_group(w);
         }
     }
 
